@@ -110,7 +110,16 @@ fn run_segment(st: &mut Story, slice: u32, lines: &mut Vec<J>) -> String {
     while st.can_continue() {
         match one_line(st, slice) {
             Ok((t, tags)) => lines.push(json!([t, tags])),
-            Err(e) => return format!("error:{}", err_class(&e)),
+            Err(e) => {
+                // the text of the interrupted line is still in the output stream
+                let cls = err_class(&e);
+                let t = st.get_current_text().unwrap_or_default();
+                let tags = st.get_current_tags().unwrap_or_default();
+                if !t.is_empty() || !tags.is_empty() {
+                    lines.push(json!([t, tags]));
+                }
+                return format!("error:{}", cls);
+            }
         }
     }
     if st.get_current_choices().is_empty() {
